@@ -337,6 +337,51 @@ def wide_cases(rng, n):
     return out
 
 
+# ---------------------------------------------------------------------------
+# repeated constant sequences (ConstSeq.tla)
+
+
+def _seq_text(items, kind):
+    inner = ", ".join(str(i) for i in items)
+    if kind == "list":
+        return "[%s]" % inner
+    return "(%s,)" % inner if len(items) == 1 else "(%s)" % inner
+
+
+def render_seq_case(r):
+    e = _seq_text(r["base"], r["kind"])
+    for op in r["ops"]:
+        e = "(%s * %d)" % (e, op["k"]) if op["side"] == "r" else "(%d * %s)" % (op["k"], e)
+    c = r["cons"]
+    o = _seq_text(c["other"], r["kind"])
+    k = c["c"]
+    if k in ("eq", "ne", "lt"):
+        return "(%s %s %s)" % (e, {"eq": "==", "ne": "!=", "lt": "<"}[k], o)
+    if k == "nested-eq":
+        return "((%s, 5) == (%s, 5))" % (e, o)
+    if k == "not":
+        return "(not %s)" % e
+    if k == "cond":
+        return "(7 if %s else 8)" % e
+    if k in ("or", "and"):
+        return "(%s %s 5)" % (e, k)
+    if k == "in":
+        return "(%d in %s)" % (c["x"], e)
+    if k == "len":
+        return "len(%s)" % e
+    if k == "ret":
+        return e
+    raise ValueError(r)
+
+
+def seq_result_obs(res, kind):
+    if res["k"] == "bool":
+        return ["bool", "True" if res["b"] else "False"]
+    if res["k"] == "int":
+        return ["int", str(res["i"])]
+    return [kind] + [["int", str(i)] for i in res["s"]]
+
+
 def seq_cases(rng, n):
     """constant sequence expressions that ConstantFolding rewrites (repeat factors, slices of constant tuples,
     concatenation); every container carries a fresh int so that the cases cannot meet in the pool.
@@ -353,7 +398,9 @@ def seq_cases(rng, n):
         if t == 0:
             e = "(%s, %s, %d) * %s" % (a, b, tag, k)
         elif t == 1:
-            e = "%s * (%s, %d)" % (k, a, tag)
+            # (a bool literal on the left, `True * (1, 2)`, makes Cython write `PyTuple_New(2 * True)`: C compile
+            # error, i.e. a rejected program without a run-time value -- not a case here)
+            e = "%s * (%s, %d)" % (rng.choice(["0", "1", "2", "3", "-1"]), a, tag)
         elif t == 2:
             e = "(%s, %d) * %s * %s" % (a, tag, k, rng.choice(["2", "3", "0"]))
         elif t == 3:
@@ -365,9 +412,9 @@ def seq_cases(rng, n):
         elif t == 6:
             e = "(%s, %s, %d)[%s]" % (a, b, tag, rng.choice(["0", "1", "-1", "2", "-3"]))
         elif t == 7:
-            e = "((%s, %d), (%s, %d)) * %s" % (a, tag, b, tag, k)
+            e = "((%s, %d), (%s, %d)) * %s" % (a, tag, b, tag + 100000, k)
         elif t == 8:
-            e = "(%s, %s, %d) * 2 == (%s, %s, %d, %s, %s, %d)" % (a, b, tag, a, b, tag, a, b, tag)
+            e = "len((%s, %s, %d) * %s)" % (a, b, tag, k)
         elif t == 9:
             e = "frozenset((%s, %s, %s, %d))" % (a, b, c, tag)
         elif t == 10:
